@@ -582,8 +582,10 @@ def div(a, b):
     # pull a constant factor out of the denominator so that equal quotients share one atom
     lead = pb[min(pb)]
     pbn = p_scale(pb, 1 / lead)
-    aid = CTX.atom(('div', p_key(pa), p_key(pbn)), lambda: ('div', pa, pbn))
-    return mk({((aid, 1),): 1 / lead}, False)
+    la = pa[min(pa)]
+    pan = p_scale(pa, 1 / la)
+    aid = CTX.atom(('div', p_key(pan), p_key(pbn)), lambda: ('div', pan, pbn))
+    return mk({((aid, 1),): la / lead}, False)
 
 
 def ssqrt(v):
@@ -767,6 +769,7 @@ class Ctx:
                           solver_s=0.0, obligations=0, discharged=0, trivially=0, infeasible=0, decide_unknown=0)
         self.assumption_notes = set()
         self.nice_budget = 12
+        self.decide_nra_ms = 1500
         self.begin([])
 
     # -- per path state ---------------------------------------------------------
@@ -795,6 +798,7 @@ class Ctx:
         self.nonzero_known = set()
         self.nonneg_known = set()
         self.tie_count = 0
+        self.decide_unknown_here = 0
 
     # -- atoms --------------------------------------------------------------------
     def var(self, name, nn=False):
@@ -1022,7 +1026,7 @@ class Ctx:
         self.stats['solver_s'] += time.time() - t
         return str(r), m
 
-    def _nra_check(self, extra, timeout_ms=None):
+    def _nra_check(self, extra, timeout_ms=None, ladder=True):
         t = time.time()
         s = z3.Solver()
         s.set('timeout', timeout_ms or self.qtimeout)
@@ -1031,7 +1035,7 @@ class Ctx:
         for e in extra:
             s.add(e)
         r = s.check()
-        if r == z3.unknown:
+        if r == z3.unknown and ladder:
             # second opinion: the nlsat tactic on a fresh goal
             try:
                 s2 = z3.Tactic('qfnra-nlsat').solver()
@@ -1078,12 +1082,13 @@ class Ctx:
         nl = self.pc_nl or b.nonlinear()
         if r == 'sat' and not nl:
             return 'sat', m
-        if nl and self.nra_at_decide:
-            r2, m2 = self._nra_check([b.z(False)], timeout_ms=min(self.qtimeout, 2000) if quick else None)
+        if nl and self.nra_at_decide and self.decide_unknown_here < 3:
+            r2, m2 = self._nra_check([b.z(False)], timeout_ms=min(self.qtimeout, self.decide_nra_ms), ladder=False)
             if r2 == 'unsat':
                 return 'unsat', None
             if r2 == 'unknown':
                 self.stats['decide_unknown'] += 1
+                self.decide_unknown_here += 1      # after 3 inconclusive attempts on this path stop asking (explore both sides)
             return ('sat' if r2 == 'sat' else 'unknown'), (m if r == 'sat' else None)
         return ('sat' if r == 'sat' else 'unknown'), m
 
@@ -1176,11 +1181,11 @@ class Ctx:
             rec['status'] = 'unknown'
         return rec['status']
 
-    def path_model(self):
+    def path_model(self, timeout_ms=None):
         """(status, model) of the exact path condition"""
         if not self.pc_nl:
             return self._lin_check(z3.BoolVal(True))
-        return self._nra_check([])
+        return self._nra_check([], timeout_ms=timeout_ms, ladder=timeout_ms is None)
 
     def witness(self, m):
         out = {}
@@ -1266,6 +1271,7 @@ def explore(fn, c, max_paths=200000, wall_s=None):
         prefix = work.pop()
         c.begin(prefix)
         rec = dict(outcome='ok', result=None, exc=None)
+        solver0 = c.stats['solver_s']
         try:
             with _Alarm(c.path_wall_s):
                 rec['result'] = fn(c)
@@ -1276,7 +1282,8 @@ def explore(fn, c, max_paths=200000, wall_s=None):
         except StepLimit:
             rec['outcome'] = 'steplimit'
         except PathTimeout:
-            rec['outcome'] = 'timeout'
+            # a wall-clock limit hit while most of the time went into the solver says nothing about the analysed code
+            rec['outcome'] = 'timeout' if (c.stats['solver_s'] - solver0) < 0.5 * c.path_wall_s else 'solver-timeout'
         except DomainError as e:
             rec['outcome'] = 'domain'
             rec['exc'] = repr(e)
